@@ -3,7 +3,7 @@
    and no trailing zero; eqp p A B = congruent modulo p coefficient by coefficient (ProofsAlg.eqp_coeff / coeff_eqp);
    prodl = product of a list; `s` is the stream of generator outputs the code consumes (any stream). *)
 From Coq Require Import ZArith List Znumtheory.
-From C09 Require Import Model ProofsAlg ProofsDiv ProofsSplit ProofsIrr ProofsSweepIrr ProofsSweepSqr ProofsSweepOrd.
+From C09 Require Import Model ProofsAlg ProofsDiv ProofsSplit ProofsIrr ProofsCZ ProofsReq ProofsSweepIrr ProofsSweepSqr ProofsSweepOrd.
 Import ListNotations.
 Local Open Scope Z_scope.
 
@@ -50,6 +50,41 @@ Theorem C09_ddf_preserves_product : forall p, prime p -> forall f MOD L s L' s',
   exists N u, L' = L ++ N /\ eqp p (pmulZ (prodl N) u) f /\ deg u <= 0 /\ Forall (canon p) N.
 Proof. exact ddf_spec. Qed.
 Print Assumptions C09_ddf_preserves_product.
+
+(* CZfactor's multiplicity bookkeeping: for every stream, the returned factors Lf with the returned multiplicities Le multiply,
+   up to a constant U, to prod_j g_j^j where (nb, g) is what sqrfree delivered; every multiplicity is >= 1, |Lf| = |Le|.
+   wprod Lf Le = prod_i Lf_i^Le_i;  gprod g 0 = g_1^1 g_2^2 ...  *)
+Theorem C09_czfactor_multiplicities : forall p, prime p -> forall P MOD s Lf Le s', czfactor p P MOD s = Some (Lf, Le, s') ->
+  let nb := fst (sqrfree p (deg P + 1) P) in let g := snd (sqrfree p (deg P + 1) P) in
+  exists U, length Lf = length Le /\ Forall (canon p) Lf /\ Forall (fun e => 1 <= e) Le /\ deg U <= 0 /\
+    eqp p (pmulZ (wprod Lf Le) U) (gprod (firstn (Z.to_nat nb) g) 0).
+Proof. exact czfactor_spec. Qed.
+Print Assumptions C09_czfactor_multiplicities.
+
+(* requests, for every stream: what is returned has exactly n+1 coefficients, leading coefficient 1, and passed the tests *)
+Theorem C09_creux_random_irreducible_exit : forall p n MOD s R s', (1 <= n)%nat -> creux_random_irreducible p n MOD s = Some (R, s') ->
+  is_irreducible p (norm R) MOD = true /\ length R = S n /\ nth n R 0 = 1.
+Proof. exact creux_random_irreducible_spec. Qed.
+Print Assumptions C09_creux_random_irreducible_exit.
+Theorem C09_ixe_irreducible_exit : forall p n MOD s R s', (1 <= n)%nat -> ixe_irreducible p n MOD s = Some (R, s') ->
+  is_irreducible p (norm R) MOD = true /\ is_prim_root p Xpoly (norm R) MOD = true /\ length R = S n /\ nth n R 0 = 1.
+Proof. exact ixe_irreducible_spec. Qed.
+Print Assumptions C09_ixe_irreducible_exit.
+Theorem C09_ixe_irreducible2_exit : forall p n MOD s R s', (1 <= n)%nat -> ixe_irreducible2 p n MOD s = Some (R, s') ->
+  is_irreducible2 p (norm R) MOD = true /\ is_prim_root p Xpoly (norm R) MOD = true /\ length R = S n /\ nth n R 0 = 1.
+Proof. exact ixe_irreducible2_spec. Qed.
+Print Assumptions C09_ixe_irreducible2_exit.
+Theorem C09_give_prim_root_exit : forall p F MOD s R s', give_prim_root p F MOD s = Some (R, s') -> is_prim_root p (norm R) F MOD = true.
+Proof. exact give_prim_root_spec. Qed.
+Print Assumptions C09_give_prim_root_exit.
+Theorem C09_give_random_prim_root_exit : forall p F MOD s R s', give_random_prim_root p F MOD s = Some (R, s') ->
+  is_prim_root p (norm R) F MOD = true.
+Proof. exact give_random_prim_root_spec. Qed.
+Print Assumptions C09_give_random_prim_root_exit.
+Theorem C09_random_prim_root_exit : forall p n MOD s P R s', (1 <= n)%nat -> random_prim_root p n MOD s = Some (P, R, s') ->
+  is_irreducible p (norm P) MOD = true /\ length P = S n /\ nth n P 0 = 1 /\ is_prim_root p (norm R) (norm P) MOD = true.
+Proof. exact random_prim_root_spec. Qed.
+Print Assumptions C09_random_prim_root_exit.
 
 (* the verified irreducibility checker (divisor search) is sound and complete against the definition *)
 Theorem C09_irreducible_b_sound : forall p, prime p -> forall P, canon p P -> irreducible_b p P = true -> irreducible_def p P.
